@@ -1337,6 +1337,9 @@ fn run_concurrent(root: &str, plan: &str, bound: &str) -> Result<(u64, u64, Stri
     }
     return Ok((num("EXECUTIONS "), num("OUTCOMES "), stdout.lines().find(|l| l.starts_with("SEQUENTIAL")).unwrap_or("").to_string()));
   }
+  if let Some(why) = crate::engines::c20::loom_artefact(&stderr) {
+    return Err(("not-explored".to_string(), why));
+  }
   if let Some(l) = stderr.lines().find(|l| l.starts_with("MISMATCH")) {
     let class = if l.contains("after the concurrent requests") { "service-does-not-answer-afterwards" } else { "responses-of-no-sequential-order" };
     return Err((class.to_string(), l.chars().take(900).collect()));
@@ -1373,6 +1376,7 @@ fn family_concurrent(run: &Run, thorough: bool) -> (u64, u64) {
         }
       }
       Err((class, detail)) if class == "machinery" => run.machinery_error(detail),
+      Err((class, detail)) if class == "not-explored" => println!("NOTE: concurrent requests {} could not be explored - loom cannot model a construct of the instrumented code ({}); this check says nothing about that scenario", plan, detail),
       Err((class, detail)) => run.violation(
         &format!("concurrent-requests:{}", class),
         &format!("requests {} from concurrent clients (preemption bound {}): {}", plan, bound, detail),
@@ -1393,6 +1397,7 @@ pub fn replay_case(case: &serde_json::Value) -> String {
     return match run_concurrent(&root, plan, bound) {
       Ok((ex, outcomes, _)) => format!("PASS requests {} hold: {} interleavings, {} distinct response vectors", plan, ex, outcomes),
       Err((class, detail)) if class == "machinery" => format!("MACHINERY {}", detail),
+      Err((class, detail)) if class == "not-explored" => format!("PASS requests {} could not be explored ({}): no verdict", plan, detail),
       Err((class, detail)) => format!("FAIL requests {}: {} {}", plan, class, detail),
     };
   }
